@@ -165,4 +165,84 @@ def unitGeom (x : Rat) (for_ : Option String) : Geom :=
   { dir := mk3 ⟨1, 0, 0⟩ ⟨0, 1, 0⟩ ⟨0, 0, 1⟩, spacing := mk3 1 1 1, pos := ⟨x, 0, 0⟩, shape := mk3 2 3 4, cs := "PATIENT",
     frameOfRef := for_ }
 
+/-! ## tolerance semantics of the translated tests of `match_geometry` -/
+
+/-- rounding a number within half a unit of an integer gives that integer -/
+theorem roundHalfEven_near (s : Int) (e : Rat) (h1 : -(1 / 2) < e) (h2 : e < 1 / 2) : roundHalfEven ((s : Rat) + e) = s := by
+  obtain ⟨a, b⟩ := roundHalfEven_bounds ((s : Rat) + e)
+  have lo : ((s - 1 : Int) : Rat) < ((roundHalfEven ((s : Rat) + e) : Int) : Rat) := by push_cast; linarith
+  have hi : ((roundHalfEven ((s : Rat) + e) : Int) : Rat) < ((s + 1 : Int) : Rat) := by push_cast; linarith
+  have lo' := Int.cast_lt.mp lo
+  have hi' := Int.cast_lt.mp hi
+  omega
+
+theorem rabs_neg_self (e : Rat) : (if (-e) < 0 then -(-e) else -e) = rabs e := by
+  unfold rabs
+  split <;> split <;> linarith
+
+/-- **tolerance semantics of the translation test of `match_geometry`** (translated loop body): a target origin that sits
+`e` voxels (|e| < 1/2) off the source voxel `s` along one axis is planned exactly like the origin on the voxel when
+`|e| ≤ tol`, and refused (RuntimeError "non-integer multiple of voxel spacing") when `|e| > tol` -/
+theorem mgCropPad_shift (s : Int) (e sp : Rat) (hsp : sp ≠ 0) (h1 : -(1 / 2) < e) (h2 : e < 1 / 2) (step no ni : Int)
+    (tol : Rat) (htol : 0 ≤ tol) (rc rp : Bool) :
+    (rabs e ≤ tol → mgCropPad (((s : Rat) + e) * sp) sp step no ni tol rc rp = mgCropPad ((s : Rat) * sp) sp step no ni tol rc rp) ∧
+    (tol < rabs e → mgCropPad (((s : Rat) + e) * sp) sp step no ni tol rc rp = .error .runtime) := by
+  have hsc : ((s : Rat) + e) * sp / sp = (s : Rat) + e := by field_simp
+  have hsc0 : (s : Rat) * sp / sp = (s : Rat) := by field_simp
+  have hr := roundHalfEven_near s e h1 h2
+  have hd : ((s : Rat) - ((s : Rat) + e)) = -e := by ring
+  have hz : ¬ (tol < 0) := not_lt.mpr htol
+  constructor
+  · intro hle
+    have hc : ¬ (rabs e > tol) := not_lt.mpr hle
+    unfold mgCropPad
+    simp only [hsc, hsc0, hr, roundHalfEven_intCast, int_trunc, hd, rabs_neg_self, sub_self]
+    simp [hc, hz]
+  · intro hgt
+    unfold mgCropPad
+    simp only [hsc, hr, int_trunc, hd, rabs_neg_self]
+    simp [hgt]
+
+/-- **tolerance semantics of the scale test** (translated alignment body): parallel or anti-parallel unit vectors
+(`σ = ±1`) and a spacing ratio `m + e` (`m ≥ 1` integer, |e| < 1/2): aligned with stride `σ·m` when `|e| ≤ tol`, refused
+(RuntimeError "Non-integer scale factor required") when `|e| > tol` -/
+theorem mgAlign_scale (σ : Int) (hσ : σ = 1 ∨ σ = -1) (m : Int) (hm : 1 ≤ m) (e t tol : Rat) (ht : t ≠ 0) (htol : 0 < tol)
+    (h1 : -(1 / 2) < e) (h2 : e < 1 / 2) :
+    (rabs e ≤ tol → mgAlign (σ : Rat) (((m : Rat) + e) * t) t tol = .ok (true, σ * m)) ∧
+    (tol < rabs e → mgAlign (σ : Rat) (((m : Rat) + e) * t) t tol = .error .runtime) := by
+  have hsc : ((m : Rat) + e) * t / t = (m : Rat) + e := by field_simp
+  have hr := roundHalfEven_near m e h1 h2
+  have hd : ((m : Rat) + e - (m : Rat)) = e := by ring
+  have hz : ¬ (tol < 0) := not_lt.mpr (le_of_lt htol)
+  have habs : (if e < 0 then -e else e) = rabs e := rfl
+  constructor
+  · intro hle
+    have hc : ¬ (tol < rabs e) := not_lt.mpr hle
+    unfold mgAlign
+    simp only [hsc, hr, int_trunc, hd, habs]
+    rcases hσ with rfl | rfl <;> simp [htol, hz, hc]
+  · intro hgt
+    unfold mgAlign
+    simp only [hsc, hr, int_trunc, hd, habs]
+    rcases hσ with rfl | rfl <;> simp [htol, hz, hgt]
+
+/-- **tolerance semantics of the direction test**: a source axis is taken for a target axis exactly when the dot product `d`
+of the two unit vectors satisfies `|d - 1| < tol` or `|d + 1| < tol` (for `d = cos θ`: `1 - |cos θ| < tol`); otherwise the
+pair is passed over -/
+theorem mgAlign_direction (d s t tol : Rat) :
+    mgAlign d s t tol = .ok (false, 0) ↔ ¬ (rabs (d - 1) < tol ∨ rabs (d + 1) < tol) := by
+  unfold mgAlign
+  have e1 : (if d - 1 / 1 < 0 then -(d - 1 / 1) else d - 1 / 1) = rabs (d - 1) := by simp [rabs]
+  have e2 : (if d + 1 / 1 < 0 then -(d + 1 / 1) else d + 1 / 1) = rabs (d + 1) := by simp [rabs]
+  simp only [e1, e2]
+  by_cases h : rabs (d - 1) < tol ∨ rabs (d + 1) < tol
+  · have hc : (decide (rabs (d - 1) < tol) || decide (rabs (d + 1) < tol)) = true := by simpa using h
+    simp only [hc, Bool.true_and, Bool.not_true, Bool.false_eq_true, if_false]
+    constructor
+    · intro hh; exfalso; split_ifs at hh <;> simp at hh
+    · intro hh; exact absurd h hh
+  · have hc : (decide (rabs (d - 1) < tol) || decide (rabs (d + 1) < tol)) = false := by simpa using h
+    simp [hc, h]
+
+
 end HdVerif.Match
